@@ -287,6 +287,57 @@ Theorem horizon_complete_lemma typ now h st :
   = filter (fun c => type_ok typ (c_key c) && (c_ts c + h <=? now)) (changes st).
 Proof. intro H. unfold read_changes. eapply rc_scan_complete; eauto. Qed.
 
+(* ---- the same for a client that follows continuation tokens page by page ---- *)
+
+Lemma rc_scan_from_sound typ now h from l : forall i j c,
+  In (j, c) (rc_scan_from typ now h from i l) ->
+  In c l /\ type_ok typ (c_key c) = true /\ c_ts c + h <= now /\ (from < j)%nat.
+Proof.
+  induction l as [|a l IH]; simpl; intros i j c H; [contradiction|].
+  destruct (type_ok typ (c_key a)) eqn:Et.
+  - destruct (now <? c_ts a + h) eqn:El; [contradiction|]. apply N.ltb_ge in El.
+    destruct (i <=? from)%nat eqn:Ei.
+    + destruct (IH _ _ _ H) as (H1 & H2 & H3 & H4). auto.
+    + destruct H as [H|H].
+      * inversion H; subst. apply Nat.leb_gt in Ei. auto.
+      * destruct (IH _ _ _ H) as (H1 & H2 & H3 & H4). auto.
+  - destruct (IH _ _ _ H) as (H1 & H2 & H3 & H4). auto.
+Qed.
+
+Lemma read_page_sound typ now h from ps st c :
+  In c (fst (read_page typ now h from ps st)) ->
+  In c (changes st) /\ type_ok typ (c_key c) = true /\ c_ts c + h <= now.
+Proof.
+  unfold read_page. simpl. intro H. apply in_map_iff in H as ([j c'] & E & Hin). simpl in E. subst c'.
+  assert (Hin' : In (j, c) (rc_scan_from typ now h from 1 (changes st))).
+  { clear - Hin. revert Hin. generalize (rc_scan_from typ now h from 1 (changes st)) as L.
+    induction ps as [|n IH]; intros L H; [destruct L; contradiction|].
+    destruct L as [|x L]; [contradiction|]. simpl in H. destruct H as [->|H]; [left; reflexivity|].
+    right. apply IH. exact H. }
+  destruct (rc_scan_from_sound _ _ _ _ _ _ _ _ Hin') as (H1 & H2 & H3 & _). auto.
+Qed.
+
+(* C15, horizon across pages: whatever the page size, the token and the number of requests, every
+   page of a token-following read through the ReadChanges command contains only changes that
+   are, at the time of THAT request, at least as old as the configured horizon *)
+Theorem horizon_withholds_all_pages_lemma typ hz ps st : forall nows tok pages tok',
+  follow_tokens typ hz ps nows tok st = (pages, tok') ->
+  Forall2 (fun now pg => forall c, In c pg ->
+             In c (changes st) /\ type_ok typ (c_key c) = true /\ c_ts c + hz <= now)
+          (firstn (length pages) nows) pages.
+Proof.
+  induction nows as [|now ns IH]; intros tok pages tok' H; cbn [follow_tokens] in H.
+  - inversion H; subst. constructor.
+  - unfold read_changes_cmd in H.
+    destruct (read_page typ now hz tok ps st) as [pg t1] eqn:Ep.
+    destruct pg as [|c0 pg'].
+    + inversion H; subst. constructor.
+    + destruct (follow_tokens typ hz ps ns t1 st) as [pgs t2] eqn:Ef. inversion H; subst. clear H.
+      cbn [length firstn]. constructor.
+      * intros c Hc. apply (read_page_sound typ now hz tok ps st c). rewrite Ep. exact Hc.
+      * eapply IH. exact Ef.
+Qed.
+
 (* histories whose clock does not go backwards keep the changelog sorted *)
 Fixpoint nows_sorted (last : N) (h : list req) : bool :=
   match h with
